@@ -1,0 +1,128 @@
+// SPDX-License-Identifier: MIT OR Apache-2.0
+
+//! Verification hook (compiled only with `--cfg p2panda_p2panda_verif`): drives the crate-private
+//! topic sync metrics `Aggregator` from an external harness and flattens the crate-private
+//! `SyncEvent` it returns into plain numbers. Adds visibility only, no behaviour.
+
+use p2panda_net::NodeId;
+use p2panda_sync::FromSync;
+use p2panda_sync::protocols::TopicLogSyncEvent;
+
+use crate::streams::{Aggregator, SessionPhase, Source, SyncEvent};
+
+/// What `Aggregator::process` returned, as plain numbers.
+#[derive(Clone, Debug, PartialEq, Eq)]
+pub enum Observed {
+    Nothing,
+    SyncStarted {
+        incoming_operations: u32,
+        outgoing_operations: u32,
+        incoming_bytes: u32,
+        outgoing_bytes: u32,
+        topic_sessions: u32,
+    },
+    SyncEnded {
+        sent_operations: u32,
+        received_operations: u32,
+        sent_bytes: u32,
+        received_bytes: u32,
+        sent_bytes_topic_total: u32,
+        received_bytes_topic_total: u32,
+        failed: bool,
+    },
+    OperationReceived {
+        sent_operations: u32,
+        received_operations: u32,
+        sent_bytes: u32,
+        received_bytes: u32,
+        sent_bytes_topic_total: u32,
+        received_bytes_topic_total: u32,
+        live: bool,
+    },
+}
+
+/// The real `Aggregator` behind a public handle.
+#[derive(Default)]
+pub struct AggregatorProbe(Aggregator);
+
+impl AggregatorProbe {
+    pub fn new() -> Self {
+        Self(Aggregator::new())
+    }
+
+    pub fn process(&mut self, session_id: u64, event: TopicLogSyncEvent<()>) -> Observed {
+        let from_sync = FromSync {
+            session_id,
+            remote: NodeId::default(),
+            event,
+        };
+        match self.0.process(from_sync) {
+            None => Observed::Nothing,
+            Some(SyncEvent::SyncStarted {
+                incoming_operations,
+                outgoing_operations,
+                incoming_bytes,
+                outgoing_bytes,
+                topic_sessions,
+                ..
+            }) => Observed::SyncStarted {
+                incoming_operations,
+                outgoing_operations,
+                incoming_bytes,
+                outgoing_bytes,
+                topic_sessions,
+            },
+            Some(SyncEvent::SyncEnded {
+                sent_operations,
+                received_operations,
+                sent_bytes,
+                received_bytes,
+                sent_bytes_topic_total,
+                received_bytes_topic_total,
+                error,
+                ..
+            }) => Observed::SyncEnded {
+                sent_operations,
+                received_operations,
+                sent_bytes,
+                received_bytes,
+                sent_bytes_topic_total,
+                received_bytes_topic_total,
+                failed: error.is_some(),
+            },
+            Some(SyncEvent::OperationReceived { source, .. }) => match source {
+                Source::SyncSession {
+                    sent_operations,
+                    received_operations,
+                    sent_bytes,
+                    received_bytes,
+                    sent_bytes_topic_total,
+                    received_bytes_topic_total,
+                    phase,
+                    ..
+                } => Observed::OperationReceived {
+                    sent_operations,
+                    received_operations,
+                    sent_bytes,
+                    received_bytes,
+                    sent_bytes_topic_total,
+                    received_bytes_topic_total,
+                    live: matches!(phase, SessionPhase::Live),
+                },
+                _ => Observed::Nothing,
+            },
+        }
+    }
+
+    pub fn running_sessions(&self) -> u32 {
+        self.0.running_sessions()
+    }
+
+    pub fn total_bytes_sent(&self) -> u32 {
+        self.0.total_bytes_sent()
+    }
+
+    pub fn total_bytes_received(&self) -> u32 {
+        self.0.total_bytes_received()
+    }
+}
